@@ -107,15 +107,41 @@ def unflatten(t, words):
 
 
 def zero(t):
+    from vverif import spec_abi as A
+
     if is_word(t):
         return BV(0)
+    k = A.kind_of(t)
+    if k == "bytes":
+        return A.Dyn("bytes", BV(0), z3.K(W, z3.BitVecVal(0, 8)))
+    if k == "array":
+        return A.Dyn("array", BV(0), [zero(t.value_type) for _ in range(t.count)])
     return [zero(m) for m in members(t)]
 
 
 def ite_val(c, a, b):
+    from vverif import spec_abi as A
+
+    if isinstance(a, A.Dyn):
+        return A.Dyn(a.kind, z3.If(c, a.len, b.len), z3.If(c, a.data, b.data) if a.kind == "bytes" else [ite_val(c, x, y) for x, y in zip(a.data, b.data)])
     if isinstance(a, list):
         return [ite_val(c, x, y) for x, y in zip(a, b)]
     return z3.If(c, a, b)
+
+
+def storage_words(t):
+    """number of storage slots of a type (docs/scoping-and-declarations.rst, storage layout): one per word, a length slot in
+    front of byte strings (data packed 32 bytes per slot) and dynamic arrays"""
+    from vverif import spec_abi as A
+
+    if is_word(t):
+        return 1
+    k = A.kind_of(t)
+    if k == "bytes":
+        return 1 + (t.length + 31) // 32
+    if k == "array":
+        return 1 + t.count * storage_words(t.value_type)
+    return sum(storage_words(m) for m in members(t))
 
 
 # ----------------------------------------------------------------------------------------------------- state
@@ -199,6 +225,7 @@ class Interp:
         for name, d in (lay.get("code_layout") or {}).items():
             self.immutables[name] = d["offset"]
         self.ctor_mode = False
+        self.use_folded = True  # False: ignore the front end's constant folding and evaluate literal expressions by the run-time rules (C17)
         self.funcs = {}
         self.vars = {}
         for n in self.mod.body:
@@ -209,12 +236,25 @@ class Interp:
                 g = getattr(n, "_expanded_getter", None)
                 if g is not None:  # public variable: the getter the language defines (`return self.<var>[arg0]...`)
                     self.funcs[n.target.id] = g
+        self.split_hints = []  # (word expr, n): on every continuing path the word is < n (bounds-checked indices): case-split candidates
+        self.invariants = []
+        self.may_revert = []  # conditions under which a revert without data is permitted but not demanded (non-canonical dynamic input)
         self.reverts = []  # path conditions of reverts without data
         self.outcomes = []
         self.fresh = 0
         self.depth = 0
 
     # ------------------------------------------------------------------ helpers
+    def hint(self, expr, n):
+        if z3.is_expr(expr) and not z3.is_bv_value(z3.simplify(expr)) and n <= 64 and not any(expr.eq(e) for e, _ in self.split_hints):
+            self.split_hints.append((expr, n))
+
+    def invariant(self, fact):
+        """representation invariant of stored values, assumed whenever a value is loaded and re-established by every store of
+        this semantics (a stored length never exceeds the declared bound; DESIGN.md assumption A7)"""
+        if not any(fact.eq(x) for x in self.invariants):
+            self.invariants.append(fact)
+
     def require(self, st, cond):
         """continue only when cond holds; otherwise the call reverts with empty data"""
         cond = z3.simplify(cond) if z3.is_expr(cond) else z3.BoolVal(bool(cond))
@@ -240,24 +280,60 @@ class Interp:
         return self.slots[name]
 
     def load_at(self, st, space, slot, t):
+        from vverif import spec_abi as A
+
         arr = st.storage if space == "storage" else st.transient
         if is_word(t):
             return z3.Select(arr, slot)
+        k = A.kind_of(t)
+        if k == "bytes":
+            i = z3.BitVec("k!ld", 256)
+            data = z3.Lambda([i], A.word_byte(z3.Select(arr, slot + BV(1) + z3.LShR(i, 5)), i & BV(31)))
+            self.invariant(z3.ULE(z3.Select(arr, slot), BV(t.length)))
+            return A.Dyn("bytes", z3.Select(arr, slot), data)
+        if k == "array":
+            ew = storage_words(t.value_type)
+            self.invariant(z3.ULE(z3.Select(arr, slot), BV(t.count)))
+            return A.Dyn("array", z3.Select(arr, slot), [self.load_at(st, space, slot + BV(1 + j * ew), t.value_type) for j in range(t.count)])
         out = []
         off = 0
         for mt in members(t):
             out.append(self.load_at(st, space, slot + BV(off), mt))
-            off += n_words(mt)
+            off += storage_words(mt)
         return out
 
     def store_at(self, st, space, slot, t, v):
-        words = flatten(t, v)
+        from vverif import spec_abi as A
+
         arr = st.storage if space == "storage" else st.transient
         tr = st.trace
-        for i, w in enumerate(words):
-            arr = z3.Store(arr, slot + BV(i), w)
-            tr = tr + ((("sstore" if space == "storage" else "tstore"), slot + BV(i), w),)
-        return st.copy(**{space: arr, "trace": tr})
+        op = "sstore" if space == "storage" else "tstore"
+        if is_word(t):
+            return st.copy(**{space: z3.Store(arr, slot, v), "trace": tr + ((op, slot, v),)})
+        k = A.kind_of(t)
+        if k == "bytes":
+            # the length slot, then the data 32 bytes per slot; bytes past the length are not observable
+            nslots = (t.length + 31) // 32
+            kk = z3.BitVec("k!st", 256)
+            j = kk - slot - BV(1)
+            word = z3.Concat(*[z3.Select(v.data, j * BV(32) + BV(b)) for b in range(32)])
+            inside = z3.And(z3.UGT(kk, slot), z3.ULE(kk, slot + BV(nslots)), z3.ULT(j * BV(32), v.len))
+            new = z3.Lambda([kk], z3.If(kk == slot, v.len, z3.If(inside, word, z3.Select(arr, kk))))
+            return st.copy(**{space: new, "trace": tr + ((op, slot, v.len),)})
+        if k == "array":
+            ew = storage_words(t.value_type)
+            s2 = st.copy(**{space: z3.Store(arr, slot, v.len), "trace": tr + ((op, slot, v.len),)})
+            for jx, e in enumerate(v.data):
+                # element j is written when j < len (elements past the length are not observable)
+                cur = self.load_at(s2, space, slot + BV(1 + jx * ew), t.value_type)
+                s2 = self.store_at(s2, space, slot + BV(1 + jx * ew), t.value_type, ite_val(z3.ULT(BV(jx), v.len), e, cur))
+            return s2
+        off = 0
+        s2 = st
+        for mt, mv in zip(members(t), v):
+            s2 = self.store_at(s2, space, slot + BV(off), mt, mv)
+            off += storage_words(mt)
+        return s2
 
     # ------------------------------------------------------------------ immutables
     def read_immutable(self, st, name, t):
@@ -324,10 +400,23 @@ class Interp:
                         tn = V.T(tname(it))
                         inb = z3.And(ix >= 0, ix < BV(n)) if tn.signed else z3.ULT(ix, BV(n))
                         st3 = self.require(st2, inb)
+                        self.hint(ix, n)
                         out.append((st3, self.sub_ref(ref, pt, None, ix)))
                     elif isinstance(pt, TupleT):
                         k = node.slice.get_folded_value().value if node.slice.has_folded_value else None
                         out.append((st2, self.sub_ref(ref, pt, k, None)))
+                    elif type(pt).__name__ == "DArrayT":
+                        it = self.typ(node.slice)
+                        tn = V.T(tname(it))
+                        if ref[0] == "state":
+                            cur_len = z3.Select(st2.storage if ref[1] == "storage" else st2.transient, ref[2])
+                            self.invariant(z3.ULE(cur_len, BV(pt.count)))
+                        else:
+                            cur_len = self.read_ref(st2, ref).len
+                        inb = z3.And(ix >= 0, z3.ULT(ix, cur_len)) if tn.signed else z3.ULT(ix, cur_len)
+                        st3 = self.require(st2, inb)
+                        self.hint(ix, pt.count)
+                        out.append((st3, self.sub_ref(ref, pt, None, ix)))
                     else:
                         raise Unsupported(f"subscript of {pt}")
             return out
@@ -335,15 +424,19 @@ class Interp:
 
     def sub_ref(self, ref, pt, k, ix):
         """component k (concrete) or ix (symbolic index of a static array) of the object denoted by ref"""
+        if type(pt).__name__ == "DArrayT":
+            if ref[0] == "local":
+                return ("local", ref[1], ref[2] + [ix], pt.value_type)
+            return ("state", ref[1], ref[2] + BV(1) + ix * BV(storage_words(pt.value_type)), pt.value_type)
         ms = members(pt)
         if ref[0] == "local":
             et = ms[k] if k is not None else ms[0]
             return ("local", ref[1], ref[2] + [k if k is not None else ix], et)
         # state
         if k is not None:
-            off = sum(n_words(m) for m in ms[:k])
+            off = sum(storage_words(m) for m in ms[:k])
             return ("state", ref[1], ref[2] + BV(off), ms[k])
-        ew = n_words(ms[0])
+        ew = storage_words(ms[0])
         return ("state", ref[1], ref[2] + ix * BV(ew), ms[0])
 
     def read_ref(self, st, ref):
@@ -353,7 +446,11 @@ class Interp:
         return self._get_path(v, ref[2])
 
     def _get_path(self, v, path):
+        from vverif.spec_abi import Dyn
+
         for p in path:
+            if isinstance(v, Dyn):
+                v = v.data
             if isinstance(p, int):
                 v = v[p]
             else:
@@ -365,8 +462,12 @@ class Interp:
         return v
 
     def _set_path(self, v, path, new):
+        from vverif.spec_abi import Dyn
+
         if not path:
             return new
+        if isinstance(v, Dyn):
+            return Dyn(v.kind, v.len, self._set_path(v.data, path, new))
         p = path[0]
         if isinstance(p, int):
             return [self._set_path(x, path[1:], new) if i == p else x for i, x in enumerate(v)]
@@ -397,13 +498,24 @@ class Interp:
     def eval(self, st, node):
         """-> list of (st, value)"""
         vy = self.vy
-        if node.has_folded_value and not isinstance(node, (vy.List, vy.Tuple)):
+        if self.use_folded and node.has_folded_value and not isinstance(node, (vy.List, vy.Tuple)):
             f = node.get_folded_value()
-            if isinstance(f, (vy.Int, vy.Decimal, vy.Hex, vy.NameConstant)) or type(f).__name__ in ("Int", "Decimal", "Hex", "NameConstant", "Bytes"):
+            if type(f).__name__ in ("Bytes", "Str", "HexBytes") and f is not node:
+                return self.eval(st, f)
+            if isinstance(f, (vy.Int, vy.Decimal, vy.Hex, vy.NameConstant)):
                 if f is not node:
                     return [(st, self.literal(f, self.typ(node)))]
         if isinstance(node, (vy.Int, vy.Decimal, vy.Hex, vy.NameConstant)):
             return [(st, self.literal(node, self.typ(node)))]
+        if type(node).__name__ in ("Bytes", "Str", "HexBytes"):
+            from vverif.spec_abi import Dyn
+
+            bs = node.value.encode() if isinstance(node.value, str) else bytes(node.value)
+            arr = z3.K(W, z3.BitVecVal(0, 8))
+            for i, b in enumerate(bs):
+                if b:
+                    arr = z3.Store(arr, BV(i), z3.BitVecVal(b, 8))
+            return [(st, Dyn("bytes", BV(len(bs)), arr))]
         if isinstance(node, vy.Name):
             if node.id in st.locals:
                 return [(st, st.locals[node.id])]
@@ -491,6 +603,11 @@ class Interp:
                     for s2, v in self.eval(s, e):
                         nxt.append((s2, acc + [v]))
                 frontier = nxt
+            t = node._metadata.get("type")
+            if type(t).__name__ == "DArrayT":  # a list literal of a dynamic-array type
+                from vverif.spec_abi import Dyn
+
+                frontier = [(s, Dyn("array", BV(len(acc)), acc + [zero(t.value_type) for _ in range(t.count - len(acc))])) for s, acc in frontier]
             return frontier
         if isinstance(node, vy.Call):
             return self.call(st, node)
@@ -544,6 +661,11 @@ class Interp:
         T = V.T(n)
         sym = {vy.Add: "+", vy.Sub: "-", vy.Mult: "*", vy.FloorDiv: "//", vy.Div: "/", vy.Mod: "%"}.get(type(op))
         if sym:
+            ca, cb = z3.simplify(a), z3.simplify(b)
+            if sym == "*" and n == "decimal" and z3.is_bv_value(ca) and z3.is_bv_value(cb):
+                x, y = (v.as_long() - 2**256 if v.as_long() >= 2**255 else v.as_long() for v in (ca, cb))
+                r = V.pyint_binop("*", T, x, y)
+                return self.require(st, z3.BoolVal(T.lo <= r <= T.hi)), BV(r % 2**256)
             if sym == "*" and n == "decimal":
                 c = V.binop_contract(sym, T, a, b)
                 r = self.new_word("decmul")
@@ -561,6 +683,19 @@ class Interp:
                 return st2, z3.SRem(a, b) if T.signed else z3.URem(a, b)
             if sym == "/":
                 return st2, (a * BV(V.DEC_DIV)) / b
+        if isinstance(op, vy.Pow):
+            ca, cb = z3.simplify(a), z3.simplify(b)
+            if not (z3.is_bv_value(ca) and z3.is_bv_value(cb)):
+                raise Unsupported("** on non-literal operands")
+            x, y = ca.as_long(), cb.as_long()
+            if T.signed:
+                x = x - 2**256 if x >= 2**255 else x
+                y = y - 2**256 if y >= 2**255 else y
+            if y < 0:
+                return self.require(st, z3.BoolVal(False)), BV(0)
+            r = x**y if y < 1024 else (0 if x == 0 else (1 if x == 1 else ((1 if y % 2 == 0 else -1) if x == -1 else None)))
+            ok = r is not None and T.lo <= r <= T.hi
+            return self.require(st, z3.BoolVal(bool(ok))), BV((r or 0) % 2**256)
         if isinstance(op, vy.BitAnd):
             return st, a & b
         if isinstance(op, vy.BitOr):
@@ -653,6 +788,8 @@ class Interp:
             for s, args in frontier:
                 out += self.run_function(s, fdef, args)
             return out
+        if isinstance(ft, MemberFunctionT):
+            return self.member_call(st, node, ft)
         tt = getattr(ft, "typedef", None)
         if isinstance(tt, StructT):  # struct constructor S(a=.., b=..)
             names = list(tt.member_types.keys())
@@ -680,7 +817,79 @@ class Interp:
             frontier = nxt
         return [self.builtin(s, name, node, args) for s, args in frontier]
 
+    def member_call(self, st, node, ft):
+        """DynArray.append(x) / .pop(): bounds checked against the current length and the declared bound"""
+        from vverif.spec_abi import Dyn
+
+        name = node.func.attr
+        at = self.typ(node.func.value)
+        out = []
+        for s1, ref in self.resolve(st, node.func.value):
+            if name == "append":
+                for s2, v in self.eval(s1, node.args[0]):
+                    cur = self.read_ref(s2, ref)
+                    s3 = self.require(s2, z3.ULT(cur.len, BV(at.count)))
+                    data = [ite_val(cur.len == BV(j), v, e) for j, e in enumerate(cur.data)]
+                    out.append((self.write_ref(s3, ref, Dyn("array", cur.len + BV(1), data)), None))
+            elif name == "pop":
+                cur = self.read_ref(s1, ref)
+                s2 = self.require(s1, cur.len != 0)
+                last = cur.data[-1]
+                for j in range(len(cur.data) - 2, -1, -1):
+                    last = ite_val(cur.len == BV(j + 1), cur.data[j], last)
+                out.append((self.write_ref(s2, ref, Dyn("array", cur.len - BV(1), cur.data)), last))
+            else:
+                raise Unsupported(f"member function {name}")
+        return out
+
+    def dyn_builtin(self, st, name, node, args):
+        from vverif import spec_abi as A
+
+        if name == "len":
+            return st, args[0].len
+        if name == "slice":
+            b, start, n = args
+            # start + n <= len(b), as mathematical integers
+            ok = z3.And(z3.UGE(start + n, start), z3.ULE(start + n, b.len))
+            st2 = self.require(st, ok)
+            N = self.typ(node.args[0]).length
+            self.hint(start, N + 1)
+            self.hint(n, N + 1)
+            i = z3.BitVec("k!sl", 256)
+            return st2, A.Dyn("bytes", n, z3.Lambda([i], z3.Select(b.data, start + i)))
+        if name == "extract32":
+            b, start = args
+            ok = z3.And(z3.UGE(start + BV(32), start), z3.ULE(start + BV(32), b.len))
+            st2 = self.require(st, ok)
+            self.hint(start, max(1, self.typ(node.args[0]).length - 31))
+            w = z3.Concat(*[z3.Select(b.data, start + BV(j)) for j in range(32)])
+            rt = self.typ(node)
+            st3 = self.require(st2, canonical(rt, w))
+            return st3, w
+        if name == "concat":
+            pieces = []
+            for a, an in zip(args, node.args):
+                t = self.typ(an)
+                if is_word(t):
+                    m = int(tname(t)[5:])
+                    pieces.append((BV(m), (lambda j, a=a: A.word_byte(a, j))))
+                else:
+                    pieces.append((a.len, (lambda j, a=a: z3.Select(a.data, j))))
+            total = BV(0)
+            offs = []
+            for ln, _ in pieces:
+                offs.append(total)
+                total = total + ln
+            i = z3.BitVec("k!cc", 256)
+            e = z3.BitVecVal(0, 8)
+            for (ln, fn), off in reversed(list(zip(pieces, offs))):
+                e = z3.If(z3.And(z3.UGE(i, off), z3.ULT(i - off, ln)), fn(i - off), e)
+            return st, A.Dyn("bytes", total, z3.Lambda([i], e))
+        raise Unsupported(f"builtin {name}")
+
     def builtin(self, st, name, node, args):
+        if name in ("len", "slice", "extract32", "concat"):
+            return self.dyn_builtin(st, name, node, args)
         t = self.typ(node)
         n = tname(t) if name not in ("empty",) else None
         if name == "empty":
@@ -689,6 +898,18 @@ class Interp:
             from vverif.contracts.convert import spec_convert
 
             tin = tname(self.typ(node.args[0]))
+            from vverif.spec_abi import Dyn
+
+            if isinstance(args[0], Dyn) and args[0].kind == "bytes" and n and n.startswith(("uint", "int")) and self.typ(node.args[0]).length <= 32:
+                # docs/types.rst: bytes -> int goes through the integer type as wide as the byte string (run-time length),
+                # sign-extended when the output type is signed, then must fit the output type
+                b = args[0]
+                T_ = V.T(n)
+                w = z3.Concat(*[z3.If(z3.ULT(BV(j), b.len), z3.Select(b.data, BV(j)), z3.BitVecVal(0, 8)) for j in range(32)])
+                sh = (BV(32) - b.len) * BV(8)
+                val = z3.If(b.len == 0, BV(0), (w >> sh) if T_.signed else z3.LShR(w, sh))
+                wide = z3.SignExt(V.WIDE - 256, val) if T_.signed else z3.ZeroExt(V.WIDE - 256, val)
+                return self.require(st, T_.in_range(wide)), val
             r = spec_convert(tin, n, args[0]) if tin and n else None
             if r is None:
                 raise Unsupported(f"convert {tin}->{n}")
@@ -728,6 +949,11 @@ class Interp:
             za, zb, zc = (z3.ZeroExt(wide - 256, x) for x in (a, b, c))
             full = (za + zb) if name.endswith("addmod") else (za * zb)
             return st2, z3.Extract(255, 0, z3.URem(full, zc))
+        if name in ("min_value", "max_value"):
+            T_ = V.T(n)
+            return st, BV((T_.lo if name == "min_value" else T_.hi) * (V.DEC_DIV if False else 1) % 2**256)
+        if name == "epsilon":
+            return st, BV(1)
         if name == "pow_mod256":
             from vverif import spec_evm as SE
 
@@ -989,21 +1215,19 @@ class Interp:
         out = []
         sig = et.name + "(" + ",".join(t.abi_type.selector_name() for t in et.arguments.values()) + ")"
         for s1, vals in frontier:
+            from vverif import spec_abi as A
+
             topics = [BV(keccak32(sig))]
-            words = []
+            d_types, d_vals = [], []
             for nm, t in et.arguments.items():
-                if not is_word(t) and members(t) is None:
-                    raise Unsupported("dynamic event argument")
                 if et.indexed[names.index(nm)]:
                     if not is_word(t):
-                        raise Unsupported("indexed composite")
+                        raise Unsupported("indexed non-word event argument")
                     topics.append(vals[nm])
                 else:
-                    words += flatten(t, vals[nm])
-            mem = ByteMem(z3.K(W, z3.BitVecVal(0, 8)))
-            for i, w in enumerate(words):
-                mem = mem.store(BV(32 * i), w)
-            ev = ("log", tuple(topics), {"len": BV(32 * len(words)), "off": BV(0), "mem": mem})
+                    d_types.append(t)
+                    d_vals.append(vals[nm])
+            ev = ("log", tuple(topics), A.encode(d_types, d_vals).as_data())
             out.append((s1.copy(trace=s1.trace + (ev,)), None))
         return out
 
@@ -1045,6 +1269,10 @@ class Interp:
         if isinstance(t, SArrayT):
             for s1, v in self.eval(st, it):
                 out += self.loop(s1, var, list(v), s.body, None)
+            return out
+        if type(t).__name__ == "DArrayT":
+            for s1, v in self.eval(st, it):
+                out += self.loop(s1, var, list(v.data), s.body, (lambda k, v=v: z3.ULT(BV(k), v.len)))
             return out
         raise Unsupported("loop iterable")
 
@@ -1110,24 +1338,20 @@ class Interp:
                 m = z3.And(has_sel, sel == BV(mid))
                 matched.append(m)
                 st = st0.assume(m)
-                nw = 0
-                for a in argl:
-                    nw += n_words(a.typ)
-                st = self.require(st, z3.UGE(env.calldatasize, BV(4 + 32 * nw)))
+                from vverif import spec_abi as A
+
+                types = [a.typ for a in argl]
+                head = 32 * sum(A.head_words(t) for t in types)
+                st = self.require(st, z3.UGE(env.calldatasize, BV(4 + head)))
                 if not ft.is_payable:
                     st = self.require(st, env.callvalue == 0)
-                vals = []
-                off = 4
-                for a in argl:
-                    ws = []
-                    for i in range(n_words(a.typ)):
-                        ws.append(env.cd_word(BV(off)))
-                        off += 32
-                    leaf_types = _leaf_types(a.typ)
-                    for lt, w in zip(leaf_types, ws):
-                        st = self.require(st, canonical(lt, w))
-                    v, _ = unflatten(a.typ, ws)
-                    vals.append(v)
+                src_cd = A.Src(env.cd_byte, env.calldatasize)
+                vals, ok, canon, end = A.decode_tuple(types, src_cd, BV(4))
+                if any(A.is_dynamic(t) for t in types):
+                    # an input that is not the canonical encoding of in-range values may be rejected (and, when accepted,
+                    # what the program observes is still the decoding above)
+                    self.may_revert.append(z3.And(st.pc, z3.Not(z3.And(ok, canon, z3.UGE(env.calldatasize, end), z3.UGE(end, BV(4))))))
+                st = self.require(st, ok)
                 frontier = [(st, vals)]
                 for kw in ft.keyword_args[k:]:
                     nxt = []
@@ -1149,6 +1373,10 @@ class Interp:
         outs = list(self.outcomes)
         if self.reverts:
             outs.append(Outcome("revert", St(z3.Or(*self.reverts), {}, env.storage0, env.transient0, (), ()), words=[]))
+        if self.may_revert:
+            o = Outcome("revert", St(z3.Or(*self.may_revert), {}, env.storage0, env.transient0, (), ()), words=[])
+            o.optional = True
+            outs.append(o)
         return outs
 
     def run_constructor(self, runtime: bytes, imm_len: int, imm_types):
@@ -1208,7 +1436,14 @@ class Interp:
             if ft.return_type is None:
                 self.outcomes.append(Outcome("stop", s1, words=None))
             else:
-                self.outcomes.append(Outcome("return", s1, words=flatten(ft.return_type, val)))
+                from vverif import spec_abi as A
+                from vyper.semantics.types import TupleT
+
+                rt = ft.return_type
+                # the return data is the encoding of the tuple of return values (a single value is a 1-tuple)
+                # (a tuple of two or more values is flattened into the outputs, as the ABI json declares it; a 1-tuple stays one output)
+                types, vals = (list(rt.member_types), list(val)) if (isinstance(rt, TupleT) and len(rt.member_types) > 1) else ([rt], [val])
+                self.outcomes.append(Outcome("return", s1, raw=A.encode(types, vals).as_data()))
 
 
 class _AugNode:
